@@ -199,10 +199,16 @@ func (c *client) Execute(
 	if c.atpVersion <= 1 {
 		return c.executeLegacy(stepData, workStartMsg, cborReader)
 	}
-	// Wrap it in a runtime message.
-	workStartMsg = RuntimeMessage{RunID: stepData.RunID, MessageID: MessageTypeWorkStart, MessageData: workStartMsg}
+	// Wrap it in a runtime message, and encode it before anything is registered for the run: input that cannot be
+	// encoded is the caller's error and must not leave a read loop behind that waits for a reply to nothing.
+	encodedWorkStart, err := cbor.Marshal(
+		RuntimeMessage{RunID: stepData.RunID, MessageID: MessageTypeWorkStart, MessageData: workStartMsg})
+	if err != nil {
+		return NewErrorExecutionResult(fmt.Errorf("failed to encode work start message (%w)", err))
+	}
+	workStartMsg = cbor.RawMessage(encodedWorkStart)
 	// Setup channels for ATP v2
-	err := c.prepareResultChannels(cborReader, stepData, signalsFromStep)
+	err = c.prepareResultChannels(cborReader, stepData, signalsFromStep)
 	if err != nil {
 		return NewErrorExecutionResult(err)
 	}
